@@ -253,7 +253,7 @@ def check_fragment(html, e, classes):
     return probs
 
 
-_ID = re.compile(r"a[0-9a-f]{5}")
+_ID = re.compile(boot.ID_PATTERN)
 
 
 def run_case(prog, mode, combo, names, agg, h):
